@@ -106,6 +106,8 @@ class Inbound:
         # connectionLost has just been signalled
         assert self._open_subchannels[scid] is sc
         del self._open_subchannels[scid]
+        # a subchannel that is gone can no longer hold the connection paused
+        self.subchannel_stopProducing(sc)
 
     def stop_using_connection(self):
         self._connection = None
